@@ -33,7 +33,8 @@ RULE = ("bounded-exhaustive DFS with (tracker state, shadow state) hashing over 
         ". Round-5 addition: the same laws observed on the wire of a real ProxiedCircuit (quick 40, thorough 600 histories of 20-150 sends): endpoint packets, endpoint retransmissions, fresh injections, packets taken before forwarding, and take() copies of messages that already went out (forwarded or injected) - every proxy-originated datagram must carry a fresh injected id above everything seen, every forwarded one the expected id"
         ". Rounds 6-7: circuit histories with a socket failure under a forwarded packet followed by a retry of the same message object and the endpoint's retransmission, first sightings that carry the RESENT flag; one long history per four shards with the stock window and 1400-5000 remembered injections, probing early, late and random ids"
         ". Round 8: long histories also under the default window, with retransmissions and bisected probes around the oldest remembered injection"
-        ". Round 9: circuit histories in which an idle endpoint's StartPingCheck names the id it will use next, the proxy injects, and the endpoint then sends that id")
+        ". Round 9: circuit histories in which an idle endpoint's StartPingCheck names the id it will use next, the proxy injects, and the endpoint then sends that id"
+        ". Round 10: circuit histories that start in the upper half of the 32-bit id range (2**31-3, 2**31+5, 3e9)")
 ASSUMPTIONS = [
     "laws are only demanded for ids whose wire id is newer than the newest injection that aged out of the tracker's "
     "window (the property's own bounded-memory caveat); below it only 'no exception other than ValueError' is asserted",
